@@ -28,11 +28,11 @@ Proof. exact c11_replay_refused. Qed.
 Theorem C11_process_iff : forall s fed cd link mb mn,
   process s fed cd link mb mn = ROk tt <->
   (is_altered s = false /\ cd = is_key s /\ link = is_link s /\ mb = is_blinding s /\ mn = is_nonce s
-   /\ values_agree (norm_values fed) (is_values s) = true).
+   /\ values_agree (holder_values fed) (is_values s) = true).
 Proof. exact c11_process_iff. Qed.
 Theorem C11_honest_flow : forall k o link b n values,
   io_key o = ik_id k -> set_eqb (keys (norm_values values)) (ik_attrs k) = true ->
-  values_agree (norm_values values) (norm_values values) = true ->
+  values_agree (holder_values values) (norm_values values) = true ->
   exists r s, make_request (ik_id k) o link b n = ROk r /\ issue k o r values = ROk s
               /\ process s values (ik_id k) link b n = ROk tt.
 Proof. exact c11_honest_flow. Qed.
@@ -41,7 +41,7 @@ Theorem C11_processed_verifiable : forall s fed cd link mb mn,
   process s fed cd link mb mn = ROk tt ->
   forall attrs revealed preds pos sp common,
     set_eqb attrs (keys (is_values s)) = true ->
-    cl_prove (source_of s) (norm_values fed) attrs revealed preds None link pos = ROk sp ->
+    cl_prove (source_of s) (holder_values fed) attrs revealed preds None link pos = ROk sp ->
     sub_ok common link pos (sp, cd, attrs, None) = true.
 Proof. exact c11_processed_verifiable. Qed.
 
